@@ -14,8 +14,9 @@ Proof. exact Proofs.today_all_inline. Qed.
     handlers of all other notifications) — at quiescence the documents are exactly what handling
     the notifications one after the other in message order gives; in particular every document
     holds the text of the last notification about it (editor text always, analysed text for
-    workspace files), and a document closed last holds no editor text and, when it is not on
-    disk, is gone from the analysis. *)
+    workspace files), and a document closed last holds no editor text and is gone from the
+    analysis when it is not on disk, resp. analysed with its on-disk content when it is a
+    workspace module on disk. *)
 Theorem inline_in_order :
   forall (e : env) (tb : table) (d0 : docs) (ns : list notif) (sched : list label) (s : state),
     all_inline tb = true ->
@@ -25,7 +26,9 @@ Theorem inline_in_order :
     forall u,
       match last_of u ns LNone with
       | LText t => d_open (s_docs s) u = Some t /\ (is_ws e u = true -> d_vfs (s_docs s) u = Some t)
-      | LClosed => d_open (s_docs s) u = None /\ (on_disk e u = false -> d_vfs (s_docs s) u = None)
+      | LClosed => d_open (s_docs s) u = None /\ (on_disk e u = false -> d_vfs (s_docs s) u = None) /\
+                   (forall t, on_disk e u = true -> is_mod e u = true -> disk_text e u = Some t ->
+                              d_vfs (s_docs s) u = None \/ d_vfs (s_docs s) u = Some t)
       | LNone => d_open (s_docs s) u = d_open d0 u /\ d_vfs (s_docs s) u = d_vfs d0 u
       end.
 Proof. exact Proofs.inline_in_order. Qed.
@@ -64,17 +67,17 @@ Proof. exact Proofs.spawned_open_refuted. Qed.
 (** non-vacuity: three documents, re-open after close, an empty change, spawned didSave tasks
     interleaved at arbitrary points; the run is quiescent and ends in message order *)
 Example inline_example :
-  let e := {| is_ws := fun u => u <? 10; on_disk := fun u => u =? 2; is_mod := fun u => u <? 10 |} in
+  let e := {| is_ws := fun u => u <? 10; on_disk := fun u => u =? 2; is_mod := fun u => u <? 10; disk_text := fun u => if u =? 2 then Some 0 else None |} in
   let all := (fun _ : kind => true) in
   let ns := [NOpen 1 10; NOther false 2; NChange 1 (Some 11); NOpen 2 20; NClose 1; NOther false 1;
              NOpen 1 12; NChange 2 None; NClose 2; NOpen 30 40; NChange 1 (Some 13)] in
   let sched := [LMain; LMain; LMain; LMain; LMain; LTask 0; LMain; LMain; LMain; LMain; LMain; LMain; LTask 0;
                 LMain; LMain; LMain; LMain; LMain; LMain; LMain; LMain; LTask 1; LMain; LMain; LMain; LMain; LMain;
-                LMain; LMain; LMain; LMain; LMain; LMain; LMain; LMain; LTask 0; LTask 0] in
+                LMain; LMain; LMain; LMain; LMain; LMain; LMain; LMain; LMain; LTask 0; LTask 0] in
   match run (step e all) (init empty_docs ns) sched with
   | Some s => quiescentb s = true /\
               d_open (s_docs s) 1 = Some 13 /\ d_vfs (s_docs s) 1 = Some 13 /\
-              d_open (s_docs s) 2 = None /\ d_vfs (s_docs s) 2 = Some 20 /\
+              d_open (s_docs s) 2 = None /\ d_vfs (s_docs s) 2 = Some 0 /\
               d_open (s_docs s) 30 = Some 40 /\ d_vfs (s_docs s) 30 = None
   | None => False
   end.
